@@ -49,6 +49,25 @@ def cases(ctx, plan):
         yield {"kind": "mol", "mol": mol.to_json(), "cls": "M6cfi", "name": mol.name, "vseed": f"{ctx.seed}/{mol.name}"}
 
 
+FOREIGN_NODE_KEYS = ["name", "label", "id", "type", "color", "weight", "pos", "index", "original_label", "atom", "value"]
+
+
+def add_foreign_attributes(ctx, g, rng):
+    """Caller-side annotations under everyday names on atoms, bonds and the graph (atom names, colours, weights, ...)."""
+    keys = rng.sample(FOREIGN_NODE_KEYS, rng.randint(1, 3))
+    for v, d in g.nodes(data=True):
+        for k in keys:
+            d[k] = rng.choice([f"{d.get('element_symbol', 'X')}{v}", v + 100, (v, "t"), 1.5])
+    for u, v, d in g.edges(data=True):
+        d["weight"] = rng.choice([1, 2.5])
+        d["name"] = f"b{min(u, v)}_{max(u, v)}"
+    g.graph["name"] = "annotated molecule"
+    ctx.count("cov_foreign_attributes_with_common_names")
+    for k in keys:
+        ctx.seen("foreign_node_keys", k)
+    return g
+
+
 def guarded(ctx, case, fn, *a):
     """Run fn under the monitors; a raised MonitorViolation is recorded with the case for replay."""
     try:
